@@ -202,6 +202,44 @@ func vfC20Scenario(rec *evid.Rec, s int) {
 		rec.Inconclusive(1)
 		return
 	}
+	// After a Resize has returned the pool must respect its NEW size: submit more gated
+	// tasks than that and look at how many run at once.
+	effNew := newSize
+	if action == "Resize-same" {
+		effNew = size
+	}
+	if atomic.LoadInt32(&pool.running) == 1 && (action == "Resize-grow" || action == "Resize-shrink" || action == "Resize-same") {
+		for d := time.Now().Add(10 * time.Second); time.Now().Before(d) && (vfPoolQueueLen(pool) > 0 || run.inflight.Load() > 0); {
+			runtime.Gosched()
+		}
+		if vfPoolQueueLen(pool) == 0 && run.inflight.Load() == 0 {
+			run.peak.Store(0)
+			var post []*vfTask
+			for i := 0; i < effNew+3; i++ {
+				mu.Lock()
+				t := newTask(true)
+				mu.Unlock()
+				t.ch = pool.Submit(run.body(t))
+				t.subDone.Store(true)
+				post = append(post, t)
+			}
+			for d := time.Now().Add(10 * time.Second); time.Now().Before(d) && int(run.inflight.Load()) < effNew; {
+				runtime.Gosched()
+			}
+			for y := 0; y < 300; y++ { // give surplus workers, if any exist, a chance to pick up a task
+				runtime.Gosched()
+			}
+			time.Sleep(3 * time.Millisecond)
+			if p := run.peak.Load(); int(p) > effNew {
+				fail("C20/more-tasks-running-than-pool-size/after-"+action, fmt.Sprintf("%d tasks ran concurrently after Resize(%d) had returned", p, effNew))
+			}
+			rec.Distinct(fmt.Sprintf("post-resize|%s|new=%d|peak<=new:%v", action, effNew, int(run.peak.Load()) <= effNew))
+			for _, t := range post {
+				close(t.gate)
+			}
+			run.peak.Store(0)
+		}
+	}
 	// submitters that used Submit return within its 50ms admission timeout; SubmitWait
 	// callers may legitimately still be waiting for a worker (running pool) or be
 	// blocked forever (the defect). Give the former a bounded chance.
